@@ -37,21 +37,20 @@ def run(tier):
     wd = common.scratch(PID)
     bdir = common.build("plain")
     drv = os.path.join(bdir, "bin", "zwdrv")
+    # forests: cooked navigation over imports of partial units (nav); the same with the partial units in a dwz alt
+    # file, where offsets of the two files collide (altnav); imported units that are ordinary compile units (navcu,
+    # DWARF 4, 3.1.2 allows both kinds); imports that lead back -- a unit importing itself, two units importing
+    # each other: nothing may hang, a unit is not inlined into itself (navcyc); import chains ten units deep
+    # (navchain; the model is exponential in the depth).  Three generations at a time, eight TLC shards each.
+    specs = [("nav", n, 8) for n in ((4, 5, 6) if tier == "quick" else (4, 5, 6, 7))] \
+          + [("altnav", n, 8) for n in ((4, 5) if tier == "quick" else (4, 5, 6))] \
+          + [("navcu", n, 8) for n in (4, 5)] \
+          + [("navcyc", n, 8) for n in ((3, 4) if tier == "quick" else (3, 4, 5))] \
+          + [("navchain", 20, 1)]
+    specs.sort(key=lambda x: -x[1] if x[0] != "navchain" else -99)          # the long ones first
     allv = []
-    for n in ((4, 5, 6) if tier == "quick" else (4, 5, 6, 7)):
-        allv += D.gen_forests("nav", n, wd)
-    # the same forests with the partial units in a dwz alt file (.gnu_debugaltlink): offsets of the two files collide
-    for n in ((4, 5) if tier == "quick" else (4, 5, 6)):
-        allv += D.gen_forests("altnav", n, wd)
-    # imported units that are ordinary compile units (DWARF 4, 3.1.2 allows both kinds)
-    for n in (4, 5):
-        allv += D.gen_forests("navcu", n, wd)
-    # imports that lead back (a unit importing itself, two units importing each other): nothing may hang, and a
-    # unit is not inlined into itself
-    for n in ((3, 4) if tier == "quick" else (3, 4, 5)):
-        allv += D.gen_forests("navcyc", n, wd)
-    # import chains of any depth: ten units deep (the model is exponential in the depth)
-    allv += D.gen_forests("navchain", 20, wd, shards=1)
+    for vs in common.parallel(lambda x: D.gen_forests(x[0], x[1], wd, shards=x[2]), specs, workers=3):
+        allv += vs
     badm = [v for v in allv if not v["ok"]["nav"]]
     if badm:
         vd.observe("model:die_it_producer / fetch_parent break a navigation law", {"forest": badm[0]["forest"]})
